@@ -88,6 +88,9 @@ pub trait DynSubject: Send + Sync {
     fn ser_src_check(&self, v: &Val, w: &mut dyn Write) -> (ser::Result<usize>, SrcReport);
     fn ser_traced(&self, v: &Val, w: &mut dyn Write) -> (ser::Result<()>, Vec<Event>);
     fn ser_schema(&self, v: &Val, w: &mut dyn Write) -> ser::Result<epserde::ser::Schema>;
+    /// `prefix` is written through a `WriterWithPos` first; then the value is written on the same writer,
+    /// through a `SchemaWriter` layered on it (`with_schema`) or directly. Returns the schema, if recorded.
+    fn ser_after_prefix(&self, v: &Val, prefix: &[u8], with_schema: bool, w: &mut dyn Write) -> ser::Result<Option<epserde::ser::Schema>>;
     fn full(&self, r: &mut dyn Read) -> deser::Result<Val>;
     fn eps(&self, buf: &[u8]) -> deser::Result<EpsOut>;
     /// bytes consumed by header check + ε-copy inner deserialization
@@ -163,6 +166,20 @@ where
     fn ser_schema(&self, v: &Val, mut w: &mut dyn Write) -> ser::Result<epserde::ser::Schema> {
         let t = S::build(v);
         t.serialize_with_schema(&mut w)
+    }
+    fn ser_after_prefix(&self, v: &Val, prefix: &[u8], with_schema: bool, mut w: &mut dyn Write) -> ser::Result<Option<epserde::ser::Schema>> {
+        use epserde::ser::{SchemaWriter, WriteNoStd, WriterWithPos};
+        let t = S::build(v);
+        let mut wp = WriterWithPos::new(&mut w);
+        wp.write_all(prefix)?;
+        if with_schema {
+            let mut sw = SchemaWriter::new(&mut wp);
+            t.serialize_on_field_write(&mut sw)?;
+            Ok(Some(sw.schema))
+        } else {
+            t.serialize_on_field_write(&mut wp)?;
+            Ok(None)
+        }
     }
     fn full(&self, mut r: &mut dyn Read) -> deser::Result<Val> {
         let t = <S::T as Deserialize>::deserialize_full(&mut r)?;
